@@ -469,6 +469,16 @@ Proof.
     + eapply stay_norm; [exact Hc1 | exact Hs1 | exact Hcs].
     + eapply stay_norm; [exact Hc1 | exact Hs1 | exact Hcs].
     + eapply stmt_res9_cells; [exact Hc1|]. apply (IHA pre n fn later ret c2 b cs R s1 g Hfuns Hbd Hs1 Hcs). rewrite Hc1. exact Hb.
+  - (* CUn UReturn *)
+    destruct op; try discriminate Hc. apply andb_true_iff in Hc. destruct Hc as [Hret Hr].
+    cbn [eval]; unfold F; (destruct (limit <? st_steps s)%N; [left; reflexivity|]); cbn [eval_card run9].
+    generalize (IHD pre n fn later c b cs R (bump s) g Hfuns Hr Hbs Hb). unfold rhs_res9.
+    destruct (run_rhs9 (sem9 later) R g c) as [[v|] g1]; cbn [fst snd];
+      (intros [E|(s1 & Hk & Hl & Hs1 & Hm)]; [rewrite E; left; reflexivity|]).
+    + destruct Hm as [E Hsv]. rewrite E. cbn [bnd ok one]. right. exists s1. cbn [fst snd].
+      split; [exact Hk|]. split; [exact Hl|]. split; [eapply st9_gst, Hs1|]. exists (en9 R cs). auto.
+    + destruct Hm as [e' E]. rewrite E. cbn [bnd err]. right. exists s1. cbn [fst snd].
+      split; [exact Hk|]. split; [exact Hl|]. split; [eapply st9_gst, Hs1|]. exists e'. reflexivity.
   - (* CTri *)
     destruct op; try discriminate Hc. apply andb_true_iff in Hc. destruct Hc as [Hc Hb3].
     apply andb_true_iff in Hc. destruct Hc as [He Hb2].
@@ -479,21 +489,11 @@ Proof.
     rewrite Hv, (v_bool_simple _ _ Hsv); destruct (v_bool [] v); cbv iota.
     + eapply stmt_res9_cells; [exact Hc1|]. apply (IHA pre n fn later ret c2 b cs R s1 g Hfuns Hb2 Hs1 Hcs). rewrite Hc1. exact Hb.
     + eapply stmt_res9_cells; [exact Hc1|]. apply (IHA pre n fn later ret c3 b cs R s1 g Hfuns Hb3 Hs1 Hcs). rewrite Hc1. exact Hb.
-  - (* CUn UReturn *)
-    destruct op; try discriminate Hc. apply andb_true_iff in Hc. destruct Hc as [Hret Hr].
-    cbn [eval]; unfold F; (destruct (limit <? st_steps s)%N; [left; reflexivity|]); cbn [eval_card run9].
-    generalize (IHD pre n fn later c b cs R (bump s) g Hfuns Hr Hbs Hb).
-    destruct (run_rhs9 (sem9 later) R g c) as [[v|] g1]; cbn [fst snd];
-      (intros [E|(s1 & Hk & Hl & Hs1 & Hm)]; [rewrite E; left; reflexivity|]).
-    + destruct Hm as [E Hsv]. rewrite E. cbn [bnd ok one]. right. exists s1. cbn [fst snd].
-      split; [exact Hk|]. split; [exact Hl|]. split; [eapply st9_gst, Hs1|]. exists (en9 R cs). auto.
-    + destruct Hm as [e' E]. rewrite E. cbn [bnd err]. right. exists s1. cbn [fst snd].
-      split; [exact Hk|]. split; [exact Hl|]. split; [eapply st9_gst, Hs1|]. exists e'. reflexivity.
   - (* SetGlobalVar *)
     apply andb_true_iff in Hc. destruct Hc as [Hne Hr]. apply negb_true_iff in Hne.
     assert (Hne' : is_empty name = false) by (destruct name; [discriminate Hne | reflexivity]).
     cbn [eval]; unfold F; (destruct (limit <? st_steps s)%N; [left; reflexivity|]); cbn [eval_card run9].
-    generalize (IHD pre n fn later c b cs R (bump s) g Hfuns Hr Hbs Hb).
+    generalize (IHD pre n fn later c b cs R (bump s) g Hfuns Hr Hbs Hb). unfold rhs_res9.
     destruct (run_rhs9 (sem9 later) R g c) as [[v|] g1]; cbn [fst snd];
       (intros [E|(s1 & Hk & Hl & Hs1 & Hm)]; [rewrite E; left; reflexivity|]).
     + destruct Hm as [E Hsv]. rewrite E. cbn [bnd ok one]. rewrite Hne'.
@@ -502,7 +502,8 @@ Proof.
         unfold st9. cbn [set_globals st_heap st_globals st_cells]. rewrite B.
         split; [exact A|]. split; [reflexivity|]. split; [exact C|]. split; [exact D|].
         apply simples_app. split; [exact E1 | apply set_assoc_simple; assumption]. }
-      right. eexists. cbn [fst snd]. split; [exact Hk|]. split; [exact Hl|]. split; [eapply st9_gst, Hs2|].
+      right. exists (set_globals (set_assoc name v (st_globals s1)) s1). cbn [fst snd].
+      split; [exact Hk|]. split; [exact Hl|]. split; [eapply st9_gst, Hs2|].
       exists cs. split; [reflexivity|]. split; [exact Hs2 | exact Hcs].
     + destruct Hm as [e' E]. rewrite E. cbn [bnd err]. right. exists s1. cbn [fst snd].
       split; [exact Hk|]. split; [exact Hl|]. split; [eapply st9_gst, Hs1|]. exists e'. reflexivity.
@@ -511,7 +512,7 @@ Proof.
     unfold var_ok in Hx. apply andb_true_iff in Hx. destruct Hx as [Hne Hdot]. apply negb_true_iff in Hne, Hdot.
     assert (Hne' : is_empty name = false) by (destruct name; [discriminate Hne | reflexivity]).
     cbn [eval]; unfold F; (destruct (limit <? st_steps s)%N; [left; reflexivity|]); cbn [eval_card run9].
-    generalize (IHD pre n fn later c b cs R (bump s) g Hfuns Hr Hbs Hb).
+    generalize (IHD pre n fn later c b cs R (bump s) g Hfuns Hr Hbs Hb). unfold rhs_res9.
     destruct (run_rhs9 (sem9 later) R g c) as [[v|] g1]; cbn [fst snd];
       (intros [E|(s1 & Hk & Hl & Hs1 & Hm)]; [rewrite E; left; reflexivity|]).
     + destruct Hm as [E Hsv]. rewrite E. cbn [bnd ok one]. rewrite (rsplit_no_dot _ Hdot), Hne', lookup_en9.
@@ -527,7 +528,7 @@ Proof.
         { unfold st9. cbn [set_cells st_heap st_globals st_cells].
           split; [exact A|]. split; [exact B|]. split; [eapply cellrel_assign; eauto|]. split; [exact D|].
           apply simples_app. split; [apply set_assoc_simple; assumption | exact E2]. }
-        right. eexists. cbn [fst snd set_cells st_cells].
+        right. exists (set_cells (upd (st_cells s1) c0 v) s1). cbn [fst snd set_cells st_cells].
         split; [intros i Hi; rewrite nth_error_upd_other7 by lia; apply Hk, Hi|].
         split; [rewrite upd_len9; exact Hl|]. split; [eapply st9_gst, Hs2|].
         exists cs. split; [unfold en9; rewrite (set_assoc_names9 _ v _ _ Ea); reflexivity|].
@@ -540,7 +541,7 @@ Proof.
             rewrite Nat.sub_diag. reflexivity.
           - constructor; [|exact D]. intros Hin. pose proof (cellrel_bound _ _ _ C _ Hin). lia.
           - cbn [app]. constructor; [exact Hsv | exact E']. }
-        right. eexists. cbn [fst snd set_cells st_cells].
+        right. exists (set_cells (st_cells s1 ++ [v]) s1). cbn [fst snd set_cells st_cells].
         split; [intros i Hi; rewrite nth_error_app1 by lia; apply Hk, Hi|].
         split; [rewrite app_length; cbn [length]; lia|]. split; [eapply st9_gst, Hs2|].
         exists (length (st_cells s1) :: cs). split; [reflexivity|]. split; [exact Hs2|].
@@ -548,4 +549,104 @@ Proof.
     + destruct Hm as [e' E]. rewrite E. cbn [bnd err]. right. exists s1. cbn [fst snd].
       split; [exact Hk|]. split; [exact Hl|]. split; [eapply st9_gst, Hs1|]. exists e'. reflexivity.
 Qed.
+
+Lemma seq_step f : all9 f ->
+  forall pre n fn later ret l b cs R s g, funs = pre ++ (n, fn) :: later -> forallb (stmtR9 (sig_of later) ret) l = true ->
+     st9 cs s R g -> Forall (fun c => (b <= c)%nat) cs -> (b <= length (st_cells s))%nat ->
+     stmt_res9 ret b s (evalf (S f) (TkSeq (length pre) (en9 R cs) l) s) (runs9 (sem9 later) R g l).
+Proof.
+  intros (_ & _ & _ & IHA & IHB) pre n fn later ret l b cs R s g Hfuns Hl Hs Hcs Hb.
+  pose proof (st9_bump _ _ _ _ Hs) as Hbs.
+  cbn [eval]. unfold F. destruct (limit <? st_steps s)%N; [left; reflexivity|].
+  destruct l as [|c r].
+  - cbn [runs9]. eapply stay_norm; [reflexivity | exact Hbs | exact Hcs].
+  - cbn [forallb] in Hl. apply andb_true_iff in Hl. destruct Hl as [Hc Hr]. cbn [runs9].
+    generalize (IHA pre n fn later ret c b cs R (bump s) g Hfuns Hc Hbs Hcs Hb). unfold stmt_res9.
+    destruct (run9 (sem9 later) R g c) as [[o R1] g1]. cbn [fst snd].
+    intros [E|(s1 & Hk & Hl1 & Hg1 & Hm)]; [rewrite E; left; reflexivity|].
+    cbn [bump st_cells] in Hk, Hl1.
+    destruct o.
+    + destruct Hm as (cs1 & E & Hs1 & Hcs1). rewrite E. cbn [bnd ok].
+      assert (Hb1 : (b <= length (st_cells s1))%nat) by lia.
+      generalize (IHB pre n fn later ret r b cs1 R1 s1 g1 Hfuns Hr Hs1 Hcs1 Hb1). unfold stmt_res9.
+      destruct (runs9 (sem9 later) R1 g1 r) as [[o2 R2] g2]. cbn [fst snd].
+      intros [E2|(s2 & Hk2 & Hl2 & Hg2 & Hm2)]; [rewrite E2; left; reflexivity|].
+      right. exists s2. split; [eapply keep_trans; [exact Hk | exact Hk2]|]. split; [lia|]. split; [exact Hg2|].
+      destruct o2.
+      * destruct Hm2 as (cs2 & E2 & Hs2 & Hcs2). rewrite E2. cbn [bnd ok app]. exists cs2. auto.
+      * destruct Hm2 as (e' & E2 & Hsv & Hret). rewrite E2. cbn [bnd]. exists e'. auto.
+      * destruct Hm2 as (e' & E2). rewrite E2. cbn [bnd err]. exists e'. reflexivity.
+    + destruct Hm as (e' & E & Hsv & Hret). rewrite E. cbn [bnd]. right. exists s1.
+      split; [exact Hk|]. split; [exact Hl1|]. split; [exact Hg1|]. exists e'. auto.
+    + destruct Hm as (e' & E). rewrite E. cbn [bnd err]. right. exists s1.
+      split; [exact Hk|]. split; [exact Hl1|]. split; [exact Hg1|]. exists e'. reflexivity.
+Qed.
+
+Lemma eval9 fuel : all9 fuel.
+Proof.
+  induction fuel as [|f IH].
+  - unfold all9. repeat split; intros; left; reflexivity.
+  - split; [exact (call_step f IH)|]. split; [exact (rhs_card_step f IH)|]. split; [exact (rhs_arg_step f IH)|].
+    split; [exact (stmt_step f IH) | exact (seq_step f IH)].
+Qed.
 End Eval9.
+
+(* ------------------------------------------------------------------ the program *)
+Lemma fns_ok9_split others : fns_ok9 others = true ->
+  forall pre n f later, others = pre ++ (n, f) :: later -> fn_ok9 later f = true.
+Proof.
+  intros H pre. revert others H. induction pre as [|[m h] pre IH]; intros others H n f later ->;
+    cbn [app fns_ok9] in H; apply andb_true_iff in H; destruct H as [H1 H2].
+  - exact H1.
+  - eapply IH; [exact H2 | reflexivity].
+Qed.
+
+Lemma find_main9 f others stdl :
+  find_index (fun fe => str_eqb (fe_name fe) s_main) (map mk9 ((s_main, f) :: others) ++ stdl) 0 = Some 0%nat.
+Proof. cbn [map app find_index mk9 fe_name fst]. rewrite rstr_eqb_refl. reflexivity. Qed.
+
+Theorem eval_program_f9 fuel M host o :
+  in_f9 M = true -> eval_program fuel M host = PObs o ->
+  exists g, run_main9 M = (match ob_kind o with KOk => true | _ => false end, g) /\
+            (ob_kind o = KOk \/ ob_kind o = KErr EVarNotFound) /\
+            simples g /\
+            ob_globals o = map (fun nv => (fst nv, vm_tree (to_vm (snd nv)))) g.
+Proof.
+  intros HM. destruct M as [subs funs imps]. cbn [in_f9] in HM.
+  destruct subs; [|discriminate]. destruct funs as [|[name f] others]; [discriminate|].
+  destruct imps; [|discriminate].
+  apply andb_true_iff in HM. destruct HM as [HM Hfns]. apply andb_true_iff in HM. destruct HM as [HM Hcards].
+  apply andb_true_iff in HM. destruct HM as [HM Hnd]. apply andb_true_iff in HM. destruct HM as [Hname _].
+  apply str_eqb_main in Hname. subst name. apply cards9_R in Hcards. apply snodup_NoDup in Hnd.
+  destruct flatten_std_some as [stdl Hstd].
+  unfold eval_program, program_of, add_std. cbn [app].
+  change 64%nat with (S 63). rewrite (flatten_f9 63 _ stdl Hstd).
+  rewrite find_main9.
+  change (nth_error (map mk9 ((s_main, f) :: others) ++ stdl) 0) with (Some (mk9 (s_main, f))). cbv iota.
+  cbn [mk9 fe_fn snd]. unfold run_main9. cbn [main_fn other_fns].
+  change {| e_scopes := [[]]; e_up := [] |} with (en9 [] []).
+  intros H.
+  assert (Hnd' : NoDup (map fst ((s_main, f) :: others))) by exact Hnd.
+  assert (Hok' : forall pre n f0 later, (s_main, f) :: others = pre ++ (n, f0) :: later -> pre <> [] -> fn_ok9 later f0 = true).
+  { intros [|x pre] n f0 later Heq Hpre; [congruence|]. cbn [app] in Heq. injection Heq as _ Heq.
+    eapply fns_ok9_split; eauto. }
+  destruct (eval9 _ stdl host (step_limit fuel) Hnd' Hok' fuel) as (_ & _ & _ & _ & HB).
+  assert (Hst : st9 [] init_state [] []).
+  { unfold st9. cbn. repeat split; constructor. }
+  pose proof (HB [] s_main f others false (f_cards f) 0%nat [] [] init_state [] eq_refl Hcards Hst (Forall_nil _) (Nat.le_0_l _)) as HB'.
+  cbn [length] in HB'. unfold stmt_res9 in HB'. revert HB'.
+  destruct (runs9 (sem9 others) [] [] (f_cards f)) as [[o1 R1] g1]. cbn [fst snd].
+  intros [E|(s1 & Hk & Hl & Hg & Hm)]; [rewrite E in H; discriminate H|].
+  destruct Hg as (Hh & Hgl & Hsg).
+  assert (Hobs : map (fun nv => (fst nv, to_tree tree_depth (st_heap s1) (snd nv))) (st_globals s1) =
+                 map (fun nv => (fst nv, vm_tree (to_vm (snd nv)))) g1).
+  { rewrite Hh, Hgl. apply map_ext_in. intros [x v] Hin.
+    unfold simples in Hsg. rewrite Forall_forall in Hsg. pose proof (Hsg _ Hin) as Hv. cbn [snd] in Hv.
+    destruct v; try contradiction; reflexivity. }
+  destruct o1.
+  - destruct Hm as (cs' & E & _). rewrite E in H. cbn [ok] in H. injection H as <-. exists g1.
+    cbn [ob_kind ob_globals observe]. auto.
+  - destruct Hm as (e' & _ & _ & Hret). discriminate Hret.
+  - destruct Hm as (e' & E). rewrite E in H. cbn [err] in H. injection H as <-. exists g1.
+    cbn [ob_kind ob_globals observe]. auto.
+Qed.
